@@ -1,10 +1,11 @@
 ------------------------- MODULE RuntimeFuncs_Trace -------------------------
 (* Binding F: judges logged calls of the real ego binary (io.ndjson, one     *)
-(* record [fn, args, ctx, out] per call) with the contract Post of           *)
+(* record [id, src, fn, args, ctx, out] per call) with the contract Post of  *)
 (* RuntimeFuncs.  Steps an index over the log, collects every failing record *)
-(* with its abstract Key and prints one report at the end.  The same spec is *)
-(* run over the outputs of the Go toolchain for the same calls: a failure    *)
-(* there is a defect of the SPEC (the check then gives no verdict).          *)
+(* with its abstract Key and prints one report at the end.  src tells whose  *)
+(* output it is: "ego" (the verdict), "go" (the Go toolchain on the same     *)
+(* call: a failure there is a defect of the SPEC, the check then gives no    *)
+(* verdict), "pert" (deliberately perturbed results: the binding self-test). *)
 EXTENDS RuntimeFuncs, Json
 
 VARIABLES i, bad
@@ -14,6 +15,6 @@ TInit == i = 0 /\ bad = <<>>
 TNext == /\ i < N
          /\ i' = i + 1
          /\ bad' = IF Post(Log[i + 1]) THEN bad
-                   ELSE Append(bad, [idx |-> i + 1, id |-> Log[i + 1].id, key |-> Key(Log[i + 1])])
+                   ELSE Append(bad, [idx |-> i + 1, id |-> Log[i + 1].id, src |-> Log[i + 1].src, key |-> Key(Log[i + 1])])
 Report == i < N \/ PrintT(ToJson([n |-> N, bad |-> bad]))
 =============================================================================
